@@ -60,9 +60,9 @@ def parseTok (limit : Nat) (d : ModDesc) (tok : String) : Option ModDesc :=
   | ["it", m, n, rt, mn, mx] => do
     let rt ← parseVT1 rt; let mn ← parseNat mn; let mx ← parseOptNat mx
     pure { d with imports := d.imports ++ [{ mod := m, name := n, desc := .table { rt := rt, min := mn, max := mx } }] }
-  | ["im", m, n, mn, mx] => do
-    let mn ← parseNat mn; let mx ← parseOptNat mx
-    pure { d with imports := d.imports ++ [{ mod := m, name := n, desc := .mem (decodeMT limit mn mx) }] }
+  | ["im", m, n, mn, mx, sh] => do
+    let mn ← parseNat mn; let mx ← parseOptNat mx; let sh ← parseBool sh
+    pure { d with imports := d.imports ++ [{ mod := m, name := n, desc := .mem { decodeMT limit mn mx with shared := sh } }] }
   | ["ig", m, n, vt, mu] => do
     let vt ← parseVT1 vt; let mu ← parseBool mu
     pure { d with imports := d.imports ++ [{ mod := m, name := n, desc := .global { vt := vt, mutable := mu } }] }
@@ -76,9 +76,9 @@ def parseTok (limit : Nat) (d : ModDesc) (tok : String) : Option ModDesc :=
   | ["lt", rt, mn, mx] => do
     let rt ← parseVT1 rt; let mn ← parseNat mn; let mx ← parseOptNat mx
     pure { d with tables := d.tables ++ [{ rt := rt, min := mn, max := mx }] }
-  | ["lm", mn, mx] => do
-    let mn ← parseNat mn; let mx ← parseOptNat mx
-    pure { d with mem := some (decodeMT limit mn mx) }
+  | ["lm", mn, mx, sh] => do
+    let mn ← parseNat mn; let mx ← parseOptNat mx; let sh ← parseBool sh
+    pure { d with mem := some { decodeMT limit mn mx with shared := sh } }
   | ["lg", vt, mu, ce] => do
     let vt ← parseVT1 vt; let mu ← parseBool mu; let ce ← parseCE ce
     pure { d with globals := d.globals ++ [{ ty := { vt := vt, mutable := mu }, init := ce }] }
